@@ -390,10 +390,15 @@ def call_polyfunc(numpoly, name, a, b):
             before = snapshot(target)
             for rc in (True, False):
                 for rn in (True, False):
-                    out.append(numpoly.clean_attributes(target, retain_coefficients=rc, retain_names=rn))
-                    with numpoly.global_options(retain_coefficients=rc, retain_names=rn):
-                        out.append(numpoly.clean_attributes(target))
-                        out.append(numpoly.polynomial(target))
+                    for call in (
+                            lambda: numpoly.clean_attributes(target, retain_coefficients=rc, retain_names=rn),
+                            lambda: numpoly.clean_attributes(target),
+                            lambda: numpoly.polynomial(target)):
+                        try:
+                            with numpoly.global_options(retain_coefficients=rc, retain_names=rn):
+                                out.append(call())
+                        except Exception as err:  # pylint: disable=broad-except
+                            out.append(type(err).__name__)
                     if changed(before, snapshot(target)):
                         raise ArgumentMutated(
                             f"clean_attributes(retain_coefficients={rc}, retain_names={rn}) modified "
@@ -529,6 +534,18 @@ def run_direct(spec, ctx):
         ctx.run_case(spec["replay_case"], lambda c: run_direct_case(c, ctx))
         return
     g = G.Gen(spec["seed"] * 1000003 + spec["part"] * 7919 + 170)
+    if spec["part"] == 0:
+        # every direct workload at least twice per run, on fixed operand classes (the random
+        # draws below add variety, not coverage of the list)
+        for name in sorted(set(POLY_FUNCS)) + sorted(set(RAISERS)):
+            for shape, names in (((2,), ["q0", "q1", "q2"]), ((), ["q0", "q1"])):
+                kind = "bool" if name == "boolpoly" else "int"
+                a = g.poly(shape=shape, names=names, kind=kind, maxexp=3, nterms=4, allow_views=False,
+                           via="retain" if name == "copyto_poly" else None)
+                b = g.poly(shape=(), names=names, kind=kind, maxexp=2, nterms=2, allow_views=False)
+                case = {"kind": "polyfunc" if name in POLY_FUNCS else "raiser", "op": name,
+                        "operands": [a, b], "kw": {}, "alias": "none"}
+                ctx.run_case(case, lambda c: run_direct_case(c, ctx))
     for i in range(spec["n"]):
         case = direct_case(g)
         if i < 2 and spec["part"] == 0:
